@@ -3,11 +3,12 @@
      labels: 0 serve_forever  1 shutdown  2 server_close  3 connect a client  4 disconnect a client  5 (nothing: observe)
              6 release the listeners factory  7 release service_init  8 release the clients' teardown
              9 UDP: a datagram is queued behind a suspended handler of the same address
+             10 (standalone) shutdown() pre-empted right before its event wait   11 that thread resumes
    After every label the internal transitions run to quiescence (gated completions only when released) and one
    observation is emitted:  L [L [A status ...]; A is_serving; A is_listening; A listener_socket_bound]
      (the last one is probed from outside the server by binding to its address; the model says is_listening again)
      status per call id: 0 pending, 1 returned, 2 ServerAlreadyRunning, 3 ServerClosedError, 4 BusyResourceError, 5 crashed *)
-From EN Require Import Lib.Bytes Lib.Sx Conc.Lifecycle.
+From EN Require Import Lib.Bytes Lib.Sx Gen.ParamsC18 Conc.Lifecycle.
 Open Scope Z_scope.
 
 Definition out_code (o : outcome) : Z :=
@@ -70,7 +71,9 @@ Fixpoint run_labels (g : gates) (cs : list Z) (s : st) (stat : list Z) : list sx
    kinds 2 (TCP) and 3 (UDP). ---- *)
 Record sst := { tclosed : bool; arun : option st; cur : nat; sstat : list Z;
                 window : bool;                 (* the serving thread is inside the start-up window: both locks held *)
-                blocked : list (Z * nat) }.    (* calls blocked on those locks: label, status index *)
+                blocked : list (Z * nat);      (* calls blocked on those locks: label, status index *)
+                pre : option (nat * bool);     (* a shutdown call pre-empted right before its event wait; was the run it saw over? *)
+                hung : list nat }.             (* shutdown calls waiting for the threading event *)
 
 Definition no_gates : gates := {| g_factory := false; g_init := false; g_client := false |}.
 
@@ -82,12 +85,18 @@ Fixpoint serve_outcome (os : list obs) : Z :=
   end.
 
 Definition upd (x : sst) (tc : bool) (ar : option st) (cu : nat) (ss : list Z) : sst :=
-  {| tclosed := tc; arun := ar; cur := cu; sstat := ss; window := window x; blocked := blocked x |}.
+  {| tclosed := tc; arun := ar; cur := cu; sstat := ss; window := window x; blocked := blocked x;
+     pre := pre x; hung := hung x |}.
+
+Fixpoint set_all (is : list nat) (v : Z) (l : list Z) : list Z :=
+  match is with [] => l | i :: is' => set_all is' v (set_nth i v l) end.
 
 (* the asynchronous run has ended (its event is set): the serving thread leaves serve_forever *)
 Definition wrap_up (x : sst) (a : st) (oa : list obs) : sst :=
   if ev a
-  then upd x (tclosed x) None (cur x) (set_nth (cur x) (serve_outcome oa) (sstat x))
+  then {| tclosed := tclosed x; arun := None; cur := cur x;
+          sstat := set_all (hung x) 1 (set_nth (cur x) (serve_outcome oa) (sstat x));   (* the event is set *)
+          window := window x; blocked := blocked x; pre := pre x; hung := [] |}
   else upd x (tclosed x) (Some a) (cur x) (sstat x).
 
 Definition async_do (x : sst) (l : label) : sst :=
@@ -111,7 +120,8 @@ Definition exec_call (c : Z) (i : nat) (gated : bool) (x : sst) : sst :=
            | Some _ => set_stat x i 2
            | None =>
                if gated
-               then {| tclosed := tclosed x; arun := None; cur := i; sstat := sstat x; window := true; blocked := blocked x |}
+               then {| tclosed := tclosed x; arun := None; cur := i; sstat := sstat x; window := true; blocked := blocked x;
+                       pre := pre x; hung := hung x |}
                else async_do (upd x (tclosed x) (Some init) i (sstat x)) LCallServe
            end
   | 1 => set_stat (async_do x LCallShutdown) i 1
@@ -132,7 +142,7 @@ Definition sdo_label (gated : bool) (c : Z) (x : sst) : sst :=
       let x := upd x (tclosed x) (arun x) (cur x) (sstat x ++ [0]) in
       if window x
       then {| tclosed := tclosed x; arun := arun x; cur := cur x; sstat := sstat x; window := true;
-              blocked := blocked x ++ [(c, i)] |}
+              blocked := blocked x ++ [(c, i)]; pre := pre x; hung := hung x |}
       else exec_call c i gated x
   | 3 => async_do x LConnect
   | 4 => async_do x LDisconnect
@@ -140,10 +150,31 @@ Definition sdo_label (gated : bool) (c : Z) (x : sst) : sst :=
       if window x
       then
         let bs := blocked x in
-        let x := {| tclosed := tclosed x; arun := Some init; cur := cur x; sstat := sstat x; window := false; blocked := [] |} in
+        let x := {| tclosed := tclosed x; arun := Some init; cur := cur x; sstat := sstat x; window := false; blocked := [];
+                    pre := pre x; hung := hung x |} in
         exec_blocked bs gated (async_do x LCallServe)
       else x
   | 9 => async_do x LUdpQueue
+  | 10 =>
+      (* shutdown(), stopped by the scheduler right before its Event.wait(): its locked section has run *)
+      let i := length (sstat x) in
+      let x := upd x (tclosed x) (arun x) (cur x) (sstat x ++ [0]) in
+      let x := async_do x LCallShutdown in        (* portal.run_coroutine(server.shutdown) if a server is running *)
+      {| tclosed := tclosed x; arun := arun x; cur := cur x; sstat := sstat x; window := window x;
+         blocked := blocked x; pre := Some (i, match arun x with None => true | Some _ => false end); hung := hung x |}
+  | 11 =>
+      (* the pre-empted shutdown resumes.  As found it waits for the one shared event, whatever run cleared it;
+         guarded (one event per run, captured under the lock) it waits for the event of the run it saw. *)
+      match pre x with
+      | None => x
+      | Some (i, seen_over) =>
+          let returns := match arun x with None => true | Some _ => standalone_shutdown_guarded && seen_over end in
+          if returns
+          then {| tclosed := tclosed x; arun := arun x; cur := cur x; sstat := set_nth i 1 (sstat x);
+                  window := window x; blocked := blocked x; pre := None; hung := hung x |}
+          else {| tclosed := tclosed x; arun := arun x; cur := cur x; sstat := sstat x;
+                  window := window x; blocked := blocked x; pre := None; hung := i :: hung x |}
+      end
   | _ => x
   end.
 
@@ -162,7 +193,7 @@ Definition run (x : sx) : sx :=
   | L (A k :: L [A gf; A gi; A gc] :: L cs :: _) =>
       do cs <- map_opt as_Z cs;
       if Z.leb 2 k
-      then L (srun_labels (negb (Z.eqb gf 0)) cs {| tclosed := false; arun := None; cur := O; sstat := []; window := false; blocked := [] |})
+      then L (srun_labels (negb (Z.eqb gf 0)) cs {| tclosed := false; arun := None; cur := O; sstat := []; window := false; blocked := []; pre := None; hung := [] |})
       else
       L (run_labels {| g_factory := negb (Z.eqb gf 0); g_init := negb (Z.eqb gi 0); g_client := negb (Z.eqb gc 0) |}
                     cs init [])
